@@ -7,7 +7,7 @@ expansion o quote is the identity for every string (a transducer property).
 import ast
 
 from ..consteval import EnumMember, const_eval
-from ..index import unparse
+from ..index import unparse, walk_no_nested
 from .. import query as Q
 from ..rules import escape as E
 from ..rules import escape2 as E2
@@ -43,6 +43,81 @@ def _facts(ctx):
     if F is None:
         F = ctx._facts = Facts(ctx.repo)
     return F
+
+
+# producers of Make variable values confirmed by reading (each is an instance
+# of F1 in KNOWN_FINDINGS.txt); used only to attribute private helpers
+KNOWN_PRODUCERS = {
+    'bfg9000.backends.make.syntax:Makefile.cmd_var',
+    'bfg9000.backends.make.writer:flags_vars',
+    'bfg9000.backends.make.writer:write',
+    'bfg9000.builtins.compile:make_compile',
+    'bfg9000.builtins.link:make_link',
+    'bfg9000.builtins.install:_add_install_paths',
+    'bfg9000.builtins.install:_doppel_cmd.wrapper',
+}
+
+
+def var_producers(ctx, table, R='ESC-MAKE'):
+    """Who puts run-time data into a Make variable value. `#` starts a
+    comment there even inside sh quotes, so as long as the shell/clean
+    members leave `#` alone every producer of non-constant values is an
+    instance of that defect; a *new* producer (say, the clean rule's file
+    list moved into a variable) is a new instance, not the known one."""
+    from ..facts import direct
+    repo = ctx.repo
+    F = _facts(ctx)
+    esc = all(table.get(m) is not None and substchain.altered(
+        table[m], '#') for m in ('shell', 'clean'))
+    prods = {}
+    for fi in repo.functions.values():
+        mn = fi.module.name
+        if not (mn.startswith('bfg9000.builtins') or
+                mn.startswith('bfg9000.backends.make')):
+            continue
+        if fi.node.name.startswith('ninja') or any(
+                unparse(d).startswith('ninja.') for d in getattr(
+                    fi.node, 'decorator_list', [])):
+            continue
+        for c in walk_no_nested(fi.node):
+            if not isinstance(c, ast.Call):
+                continue
+            nm = Q.attr_name(c.func)
+            val = None
+            if nm in ('variable', 'target_variable') and isinstance(
+                    c.func, ast.Attribute):
+                val = Q.arg(c, 1, 'value')
+            elif nm in ('rule', 'multitarget_rule'):
+                val = Q.kwarg(c, 'variables')
+            if val is None:
+                continue
+            if isinstance(c.func, ast.Attribute) and \
+                    nm != 'multitarget_rule':
+                rv = F.atoms(c.func.value, fi)
+                if not any('buildfile' in a or a.endswith('self') or
+                           'Makefile' in a for a in rv):
+                    continue
+            at = {a for a in F.atoms(val, fi)
+                  if not a.startswith(('const:', 'alloc:', 'key:'))}
+            if nm in ('rule', 'multitarget_rule') and at <= {
+                    'param:variables'}:
+                continue        # pass-through of the caller's mapping
+            if at:
+                prods.setdefault(fi.fq, []).append(c)
+    # a private helper all of whose callers are confirmed producers is part
+    # of them (extracting the call into a helper is neutral)
+    for fq in sorted(prods):
+        if fq not in KNOWN_PRODUCERS and F.only_called_from(
+                repo.functions[fq], KNOWN_PRODUCERS):
+            del prods[fq]
+    ctx.ob(R, 'MK_VARVALUE|producers-found', len(prods) >= 5, None,
+           'only {} producers of Make variable values found'.format(
+               len(prods)))
+    for fq in sorted(prods):
+        ctx.ob(R, "MK_VARVALUE|'#'|producer|" + fq, esc, prods[fq][0],
+               '{} stores run-time data in a Make variable; `#` is not '
+               'escaped for variable values, so a value containing `#` is '
+               'cut off there'.format(fq))
 
 
 def esc_make_extra(ctx, table):
@@ -183,6 +258,7 @@ def check(ctx):
                    only_members={'shell', 'clean'})
     # argument positions only: path contexts belong to C04
     esc_make_extra(ctx, table)
+    var_producers(ctx, table)
     shell_roles = [r for r in E2.MAKE_ROLES
                    if set(r[1]) & {'shell', 'clean'}]
     E2.position_rule(ctx, 'SYNTAX-POSITION', sites, shell_roles, 'make')
